@@ -11,12 +11,9 @@ import (
 	"github.com/ohler55/slip"
 )
 
-const (
-	indent = "\n                                                                " +
-		"                                                                " +
-		"                                                                " +
-		"                                                                " // 256 wide should be enough
-)
+// indent is a newline followed by spaces, sliced to indent a line. Deeply
+// nested forms at a narrow margin are indented by more than a screen width.
+var indent = "\n" + strings.Repeat(" ", 1<<16)
 
 // This interface is needed since importing flavors causes an undetectable
 // import loop.
